@@ -27,6 +27,9 @@
  *                  at the server endpoint from the client address, from a new address;
  *                  <b> = hex | @req<k> | @rsp<k> | @rst<k> | @hello   (cleartext CoAP crafted here)
  *         rel      the application releases the client session
+ *         K<sni|->:<keyhex>[:<idhex>]   next client: the current client session is released and a
+ *                  new one (new address) with this SNI / key / identity is used from the next C on;
+ *                  the server context - and its cache of SNI credentials - stays
  *
  * Trace tokens: see harness/common/tg_net.h and tools/gen_tls.py (the parser).
  */
@@ -48,6 +51,7 @@ static coap_address_t g_caddr;     /* client local address */
 static int g_have_caddr;
 static int g_dtls;
 
+static char *g_k_sni;
 static struct { int used; coap_mid_t mid; uint8_t tok[8]; size_t tl; int con; } g_req[MAXREQ];
 
 /* ------------------------------------------------------------------ config tables */
@@ -136,7 +140,7 @@ static const coap_dtls_spsk_info_t *cb_sni(const char *sni, coap_session_t *s, v
   tg_hex(h, sizeof(h), (const uint8_t *)sni, l);
   tg_emit("s.sni:%s", h);
   for (int i = 0; i < t_ssni.n; i++)
-    if (t_ssni.rows[i].al == l && memcmp(t_ssni.rows[i].a, sni, l) == 0) {
+    if (t_ssni.rows[i].al == l && strncasecmp((const char *)t_ssni.rows[i].a, sni, l) == 0) {
       cb_sinfo.hint.s = t_ssni.rows[i].b;
       cb_sinfo.hint.length = t_ssni.rows[i].bl;
       cb_sinfo.key.s = t_ssni.rows[i].c;
@@ -531,6 +535,38 @@ static void run_case(void) {
           vn_addr4(&from, 0x0a000001u, 40000);
         tg_emit("n.inj:%s:%zu", op[1] == 's' && g_have_caddr ? "s" : "o", n);
         vn_inject_ep(g_srv, g_ep, &from, NULL, buf, n);
+      }
+    } else if (op[0] == 'K') {
+      /* history on one server context: retire this client, switch credentials */
+      if (g_cs) {
+        vn_unregister_client(g_cs);
+        coap_session_release(g_cs);
+        g_cs = NULL;
+        tg_emit("a.rel:1");
+      }
+      /* a fresh client context: whatever still referenced the old session goes with the old one */
+      coap_free_context(g_cli);
+      g_cli = coap_new_context(NULL);
+      coap_register_response_handler(g_cli, on_resp);
+      coap_register_nack_handler(g_cli, on_nack);
+      coap_register_event_handler(g_cli, on_event_c);
+      tg_emit("a.next");
+      g_ss = g_ss_dying = NULL;
+      g_have_caddr = 0;
+      memset(g_req, 0, sizeof(g_req));
+      g_npend = 0;                      /* what is still on the wire is lost */
+      {
+        char *spec = strdup(op + 1), *f1 = spec, *f2, *f3;
+        f2 = strchr(f1, ':');
+        if (f2) *f2++ = 0;
+        f3 = f2 ? strchr(f2, ':') : NULL;
+        if (f3) *f3++ = 0;
+        free(g_k_sni);
+        g_k_sni = strcmp(f1, "-") ? strdup(f1) : NULL;
+        csni = g_k_sni;
+        if (f2) { free(ck); ck = hexfield(f2, strlen(f2), &ckl); }
+        if (f3) { free(cid); cid = hexfield(f3, strlen(f3), &cidl); }
+        free(spec);
       }
     } else if (strcmp(op, "rel") == 0) {
       if (g_cs) {
